@@ -334,6 +334,37 @@ class Check(object):
                 self.obligations.append((relpath, False, 'file did not compile'))
             return False, out
         allok = True
+        if self.tier == 'thorough' and not os.environ.get('VERIF_NO_COQCHK'):
+            # independent re-check of the compiled property file and its whole dependency cone
+            mod = os.path.splitext(name)[0]
+            cmd = ['timeout', '2400', 'coqchk', '-o', '-silent', '-R', COQ, 'PyCraft']
+            for d, nm in extra_q:
+                cmd += ['-Q', d, nm]
+            cmd += ['-Q', self.build, '', mod]
+            p = subprocess.run(cmd, stdout=subprocess.PIPE, stderr=subprocess.STDOUT, cwd=self.build)
+            txt = p.stdout.decode()
+            self.checker_cmds.append('coqchk -o -R coq PyCraft %s' % mod)
+            axioms, grab = [], False
+            for line in txt.split('\n'):
+                if line.startswith('* Axioms:'):
+                    grab = True
+                    rest = line[len('* Axioms:'):].strip()
+                    if rest and rest != '<none>':
+                        axioms.append(rest)
+                    continue
+                if grab:
+                    if line.startswith('* ') or not line.strip():
+                        if line.startswith('* '):
+                            grab = False
+                        continue
+                    axioms.append(line.strip())
+            bad_ax = [a for a in axioms if not any(a.endswith(x) or a.endswith(x.split('.')[-1]) for x in ALLOWED_AXIOMS)]
+            other = [l for l in txt.split('\n') if l.startswith('* Constants/Inductives relying on') or l.startswith('* Inductives whose positivity') ]
+            unsafe = [l for l in other if '<none>' not in l]
+            okchk = p.returncode == 0 and not bad_ax and not unsafe
+            self.obligations.append(('coqchk:' + mod, okchk, 'axioms: %s' % (', '.join(axioms) or 'none') if p.returncode == 0 else txt[-600:]))
+            self.extra.setdefault('coqchk', {})[mod] = {'rc': p.returncode, 'axioms': axioms}
+            allok = allok and okchk
         for thm, closed, ax in parse_assumptions(src, out):
             bad = [a for a in ax if a not in ALLOWED_AXIOMS]
             good = closed or not bad
